@@ -232,6 +232,11 @@ def run_ctor(case):
                    ("values = array of another shape", lambda b: setattr(b, "values", np.zeros(tuple(len(l) + (1 if j == i else 0) for j, l in enumerate(labels)))))]
         if nd >= 2:
             inplace.append(("dims = fewer names", lambda b: setattr(b, "dims", tuple(dims[:-1]))))
+            inplace.append(("axes = fewer axes (Axis objects)", lambda b: setattr(b, "axes", [da.Axis(core.label_array(l), dd) for dd, l in list(zip(dims, labels))[:-1]])))
+            inplace.append(("axes = fewer axes (Axes)", lambda b: setattr(b, "axes", da.Axes([da.Axis(core.label_array(l), dd) for dd, l in list(zip(dims, labels))[:-1]]))))
+            inplace.append(("axes = fewer axes (label lists)", lambda b: setattr(b, "axes", [list(l) for l in labels[:-1]])))
+        inplace.append(("axes = one more axis", lambda b: setattr(b, "axes", [da.Axis(core.label_array(l), dd) for dd, l in zip(dims, labels)] + [da.Axis(np.array([0]), "extra_")])))
+        inplace.append(("axes = one more axis (Axes)", lambda b: setattr(b, "axes", da.Axes([da.Axis(core.label_array(l), dd) for dd, l in zip(dims, labels)] + [da.Axis(np.array([0]), "extra_")]))))
         for name, g in inplace:
             b = da.DimArray(vals.copy(), axes=[da.Axis(x.copy(), dd) for dd, x in zip(dims, larr)])
             what = "in-place '%s' on dim %s dims=%s labels=%s" % (name, d, dims, labels)
@@ -708,6 +713,11 @@ def run_history(case, allow_kf_pattern=False):
             if inplace:
                 tx, ty = make_twins()      # the step changes x: the twin has to be taken before
             del _constructed[:]
+
+            def state(h):        # values, plain labels and names (read-only: grouped axes are left alone)
+                return (np.array(h.values, dtype=object, copy=True), [None if is_grouped(ax) else np.array(ax.values, dtype=object, copy=True) for ax in h.axes],
+                        [ax.name for ax in h.axes])
+            pre = [] if inplace else [(nm_, h_, state(h_)) for nm_, h_ in (("first", x), ("second", y))]
             # ---- history-laden run
             r1 = e1 = None
             try:
@@ -721,6 +731,14 @@ def run_history(case, allow_kf_pattern=False):
             except Exception as e:
                 e1 = e
             nobj = drain(what, sig)
+            for nm_, h_, (v0, l0, n0) in pre:
+                # a step that is not in-place is a query: the array it ran on must be what it was (a fresh array would be)
+                v1, l1, n1 = state(h_)
+                same = (v1.shape == v0.shape and all(core.same_scalar(p_, q_) for p_, q_ in zip(v1.ravel().tolist(), v0.ravel().tolist())) and n1 == n0
+                        and all((p_ is None and q_ is None) or (p_ is not None and q_ is not None and p_.tolist() == q_.tolist()) for p_, q_ in zip(l1, l0)))
+                if not same:
+                    raise Violation("operand-changed-by-a-non-in-place-step", {"what": what, "operand": nm_, "before": core.jsonable(v0), "after": core.jsonable(v1),
+                                                                               "names": [n0, n1]}, sig=dict(sig, kind_="operand"))
             if not inplace:
                 tx, ty = make_twins()      # taken after the history-laden run: building a twin reads labels (a query)
                 del _constructed[:]
